@@ -3,7 +3,7 @@
 import json, os, shutil, sys
 src = "/tmp/seeds"
 for prop in sorted(os.listdir(src)):
-    for i in (1, 2, 3, 4, 5, 6, 7, 8, 9, 10, 11, 12):
+    for i in (1, 2, 3, 4, 5, 6, 7, 8, 9, 10, 11, 12, 13):
         cf = os.path.join(src, prop, f"confirm_{i}.json")
         if not os.path.exists(cf):
             continue
